@@ -29,7 +29,8 @@
 EXTENDS Integers, Sequences, FiniteSets, TLC, Json, SequencesExt
 
 CONSTANTS MeshIds, SkelIds, AnimKinds, TrsKinds, MaxModels, MaxLights,
-          HardOffset, Overwrite, SamplerI, Mutate, Dedup, Validate
+          HardOffset, Overwrite, SamplerI, Mutate, Dedup, Validate,
+          AllowUnrigged     \* generator only: a skeleton may meet a mesh that is not rigged (for it)
 
 VARIABLES w, models, lights
 vars == <<w, models, lights>>
@@ -147,7 +148,7 @@ AddModelW(w0, m) ==
 Candidates ==
     {[mesh |-> me, skel |-> sk, anim |-> an, trs |-> tk] : me \in MeshIds, sk \in SkelIds \cup {0}, an \in AnimKinds, tk \in TrsKinds}
 Sensible(m) ==
-    /\ m.skel # 0 => (JW[m.mesh] >= 1 /\ JW[m.mesh] <= NJ(m.skel))     \* the mesh is rigged for a joint range the skeleton has
+    /\ m.skel # 0 => (AllowUnrigged \/ (JW[m.mesh] >= 1 /\ JW[m.mesh] <= NJ(m.skel)))   \* the mesh is rigged for joints the skeleton has
     /\ m.skel = 0 => m.anim \in {0, 1}                                 \* sequences without a skeleton: one representative
 
 Init == w = EmptyW /\ models = <<>> /\ lights = <<>>
